@@ -7,7 +7,7 @@ LOG=$M/confirm_demo.log; : > $LOG
 cd $WT
 git checkout -q -- . ; git clean -fdq
 git apply $M/patch.diff || exit 2
-for d in rten-tensor rten-gemm rten-onnx rten-text rten-generate rten-imageproc rten-serialize; do [ -d $d ] && mkdir -p $d/tests; done
+mkdir -p tests; for d in rten-tensor rten-gemm rten-onnx rten-text rten-generate rten-imageproc rten-serialize; do [ -d $d ] && mkdir -p $d/tests; done
 sh -c "$INST" >> $LOG 2>&1
 echo "== demo WITH change (expect failure)" >> $LOG
 cargo test --offline -j 8 $DEMO >> $LOG 2>&1; echo "exit=$?" >> $LOG
